@@ -16,12 +16,23 @@ use libpatch::patch::*;
 
 use crate::Toks;
 
+pub const CR_TWIN: i64 = 1_000_000;
+
 pub fn line_bytes(id: i64) -> &'static [u8] {
-    // a line is identified by a number; the bytes are "<n>\n"
-    Box::leak(format!("{}\n", id).into_bytes().into_boxed_slice())
+    // a line is identified by a number; the bytes are "<n>\n".  Numbers from CR_TWIN on are the CR-LF twins of the
+    // small ones: "<n - CR_TWIN>\r\n" - a different line that looks alike.
+    if id >= CR_TWIN {
+        Box::leak(format!("{}\r\n", id - CR_TWIN).into_bytes().into_boxed_slice())
+    } else {
+        Box::leak(format!("{}\n", id).into_bytes().into_boxed_slice())
+    }
 }
 
 pub fn line_id(l: &[u8]) -> String {
+    if l.len() >= 2 && l[l.len() - 2] == b'\r' {
+        let n: i64 = String::from_utf8_lossy(&l[..l.len() - 2]).parse().unwrap_or(0);
+        return (n + CR_TWIN).to_string();
+    }
     String::from_utf8_lossy(&l[..l.len() - 1]).to_string()
 }
 
